@@ -1,25 +1,55 @@
 import Spine.Sender
+import Spine.SenderEv
+import Spine.Generated.Sender
 open Spine.Snd
-/-! Line protocol for the sender model (C13). One op per line, one answer per line. -/
-partial def loop (h out : IO.FS.Stream) (s : St) : IO Unit := do
+/-! Line protocol for the sender model (C13). One op per line, one answer per line.
+    State: the event-sourced model `Spine.SndEv.St` (its `base` is the sequential `Spine.Snd.St`) and the family flag
+    `insertFirst` (set by `cfg insertfirst 0|1` after the harness probed the tree under test; survives `reset`).
+    `member` answers the STATIC family member regenerated from the source: `before` (the request is remembered before the
+    write), `after-window` (after it, and a response can be processed in between), `after-nowindow`.
+    `reqf h r` is a `Request` during whose write a response referencing counter `r` is processed (`r = 0`: the
+    request's own counter): the events `reqBegin`, `plain (response …)`, `reqEnd` of `Spine.SndEv`. -/
+
+def reqInFlight (f : Bool) (s : Spine.SndEv.St) (h r : Nat) : Spine.SndEv.St × String :=
+  match Spine.SndEv.observe s (.reqBegin 0 h) with
+  | [.req _ c true] =>
+    let s1 := Spine.SndEv.step f s (.reqBegin 0 h)
+    let ref := if r = 0 then c else r
+    let s2 := Spine.SndEv.step f s1 (.plain (.response ref))
+    (Spine.SndEv.step f s2 (.reqEnd 0), s!"{c} 1")
+  | [.req _ c false] => (Spine.SndEv.step f s (.reqBegin 0 h), s!"{c} 0")
+  | _ => (s, "blocked")
+
+partial def loop (h out : IO.FS.Stream) (f : Bool) (es : Spine.SndEv.St) : IO Unit := do
   let line ← h.getLine
   if line.isEmpty then out.flush; return ()
-  let (s', ans) : St × String := match line.trimAscii.toString.splitOn " " with
+  let s := es.base
+  let (f', s', ans) : Bool × Spine.SndEv.St × String := match line.trimAscii.toString.splitOn " " with
     | ["req", hs] => match hs.toNat? with
-      | some hh => let (s', c, w) := request s hh; (s', s!"{c} {if w then 1 else 0}")
-      | none => (s, "bad-op")
+      | some hh => let (s', c, w) := request s hh; (f, { es with base := s' }, s!"{c} {if w then 1 else 0}")
+      | none => (f, es, "bad-op")
+    | ["reqf", hs, rs] => match hs.toNat?, rs.toNat? with
+      | some hh, some r => let (es', a) := reqInFlight f es hh r; (f, es', a)
+      | _, _ => (f, es, "bad-op")
     | ["resp", r] => match r.toNat? with
-      | some r => (response s r, "ok")
-      | none => (s, "bad-op")
-    | ["other"] => let (s', c) := other s; (s', toString c)
-    | ["notify"] => let (s', c) := notify s; (s', toString c)
+      | some r => (f, { es with base := response s r }, "ok")
+      | none => (f, es, "bad-op")
+    | ["other"] => let (s', c) := other s; (f, { es with base := s' }, toString c)
+    | ["notify"] => let (s', c) := notify s; (f, { es with base := s' }, toString c)
     | ["get", c] => match c.toNat? with
-      | some c => let (s', b) := get s c; (s', if b then "1" else "0")
-      | none => (s, "bad-op")
-    | ["cachelen"] => (s, toString s.req.length)
-    | ["reset"] => ({}, "reset")
-    | _ => (s, "bad-op")
+      | some c => let (s', b) := get s c; (f, { es with base := s' }, if b then "1" else "0")
+      | none => (f, es, "bad-op")
+    | ["cachelen"] => (f, es, toString s.req.length)
+    | ["cfg", "insertfirst", v] => match v.toNat? with
+      | some v => (v != 0, es, "ok")
+      | none => (f, es, "bad-op")
+    | ["member"] => (f, es,
+        if Spine.Generated.Sender.requestRemembersBeforeWrite then "before"
+        else if Spine.Generated.Sender.responsePathSkipsRequestMutex && Spine.Generated.Sender.writeOutsideCacheLock then "after-window"
+        else "after-nowindow")
+    | ["reset"] => (f, {}, "reset")
+    | _ => (f, es, "bad-op")
   out.putStrLn ans
   out.flush
-  loop h out s'
-def main : IO Unit := do loop (← IO.getStdin) (← IO.getStdout) {}
+  loop h out f' s'
+def main : IO Unit := do loop (← IO.getStdin) (← IO.getStdout) false {}
